@@ -443,13 +443,7 @@ func (g *gen) safeAtom() slip.Object {
 		return slip.String(sb.String())
 	case x < 70:
 		g.ctx.Hist("leaf:character")
-		for {
-			ch := g.scalar()
-			if strings.ContainsRune("!\"$%&'();?[\\]`{}", ch) {
-				continue
-			}
-			return slip.Character(ch)
-		}
+		return slip.Character(g.scalar())
 	case x < 92:
 		g.ctx.Hist("symbol:safe")
 		if r.Chance(30) {
@@ -937,6 +931,16 @@ func repairedCases() (out []repairedCase) {
 		for _, c := range []cfg{flat, pretty, with(pretty, func(c *cfg) { c.pcase = "up"; c.margin = 2 }), with(flat, func(c *cfg) { c.readably = false })} {
 			out = append(out, repairedCase{"C03-12", c, o})
 		}
+	}
+	// C03-13: the characters the reader rejects after #\ (the sweep of part A covers every ASCII character alone)
+	var chars slip.List
+	for _, ch := range "!\"$%&'();?[\\]`{}" {
+		chars = append(chars, slip.Character(ch))
+	}
+	for _, c := range []cfg{flat, pretty, with(pretty, func(c *cfg) { c.margin = 9 }), with(flat, func(c *cfg) { c.readably = false; c.pcase = "up" })} {
+		out = append(out, repairedCase{"C03-13", c, chars})
+		out = append(out, repairedCase{"C03-13", c, slip.NewVector(len(chars), slip.TrueSymbol, nil, chars, false)})
+		out = append(out, repairedCase{"C03-13", c, slip.List{slip.Character('('), slip.Tail{Value: slip.Character(')')}}})
 	}
 	return
 }
